@@ -220,11 +220,11 @@ Definition ex_enc := TCert 2 KIND_SM2 KU_ENC 102.
 Definition ex_auth := TCert 3 KIND_SM2 KU_SIGN 103.
 Definition ex_rsa := TCert 4 KIND_RSA 3 104.
 Definition ex_client : cconfig :=
-  mkCC true 771 [57363; 57427; 57361; 57425] true [1; 2] (Some (ex_auth, 103)) false None 11 12 13 14.
+  mkCC true 771 [57363; 57427; 57361; 57425] true [ex_sig; ex_enc] (Some (ex_auth, 103)) false None 11 12 13 14.
 Definition ex_server (mode : smode) (auth : N) : sconfig :=
-  mkSC mode None false auth [3] [(ex_sig, 101); (ex_enc, 102)] (Some (ex_rsa, 104)) true 200 false 21 22 23.
+  mkSC mode None false auth [ex_auth] [(ex_sig, 101); (ex_enc, 102)] (Some (ex_rsa, 104)) true 200 false 21 22 23.
 Definition ex_tls_client (maxv : N) : cconfig :=
-  mkCC false maxv [49172; 47] true [4] None false None 11 12 13 14.
+  mkCC false maxv [49172; 47] true [ex_rsa] None false None 11 12 13 14.
 
 Definition both_done (r : (cstate * pstat) * (sstate * pstat)) : bool :=
   match snd (fst r), snd (snd r) with PDone, PDone => true | _, _ => false end.
